@@ -10,6 +10,7 @@ use vstd::prelude::*;
 use core::task::{Poll, Context, Waker};
 use core::time::Duration;
 use core::num::NonZeroUsize;
+use std::thread::Thread;
 verus! {
 global size_of usize == 8;
 
@@ -73,6 +74,17 @@ impl AtomicU8 {
     { unimplemented!() }
     #[verifier::external_body]
     pub fn fetch_add(&self, d: u8, o: Ordering) -> (v: u8) { unimplemented!() }
+    /// compare_exchange on the signal state.  R2b (assumed, signal protocol): only the waiter itself ever stores
+    /// LOCKED_STARVATION, so when its own LOCKED -> LOCKED_STARVATION exchange fails the value it sees is final.
+    #[verifier::external_body]
+    pub fn compare_exchange(&self, current: u8, new: u8, success: Ordering, failure: Ordering) -> (r: Result<u8, u8>)
+        ensures
+            r matches Err(v) ==> self.observed(v) && v != current && (is_acquire(failure) ==> acq_synced())
+                && (current == 2 && new == 3 ==> v < 2),
+            r matches Ok(v) ==> v == current && self.stored(new, success),
+    { unimplemented!() }
+    /// this thread has stored `v` with ordering `o`
+    pub uninterp spec fn stored(&self, v: u8, o: Ordering) -> bool;
 }
 #[verifier::external_body]
 pub struct AtomicU32 { p: u8 }
@@ -125,12 +137,18 @@ pub fn available_parallelism_or_1() -> (p: usize) ensures p >= 1 { unimplemented
 pub struct KanalPtr<T> { p: core::marker::PhantomData<T> }
 #[verifier::external_body] #[verifier::accept_recursive_types(X)]
 pub struct UnsafeCell<X> { p: core::marker::PhantomData<X> }
-#[verifier::external_body]
-pub struct Thread { p: u8 }
+#[verifier::external_type_specification] #[verifier::external_body]
+pub struct ExThread(std::thread::Thread);
 impl<X> UnsafeCell<X> {
     #[verifier::external_body]
     pub fn new(x: X) -> Self { unimplemented!() }
+    /// stand-in for `UnsafeCell::get` (which returns a raw pointer): access to the cell's content
+    #[verifier::external_body]
+    pub fn get(&self) -> &mut X { unimplemented!() }
 }
+/// T10: std::thread::current / park (trusted: return, touch nothing the contracts speak about)
+pub assume_specification [std::thread::current] () -> std::thread::Thread;
+pub assume_specification [std::thread::park] ();
 impl<X> From<X> for UnsafeCell<X> {
     #[verifier::external_body]
     fn from(x: X) -> Self { unimplemented!() }
